@@ -6,9 +6,11 @@ import (
 	"fmt"
 	"math/big"
 	"os"
+	"reflect"
 	"strconv"
 	"strings"
 
+	"flamingo.me/flamingo/v3/framework/flamingo"
 	"flamingo.me/pugtemplate/pugjs"
 	"flamingo.me/pugtemplate/templatefunctions"
 )
@@ -16,14 +18,46 @@ import (
 // C18: one call of Math.min/max/ceil/trunc/round or parseInt per case, made
 // either directly on the exported Go API or through a rendered template.
 type c18Arg struct {
-	K string `json:"k"` // int | int64 | float64 | number | string | pugstring | bool
+	K string `json:"k"` // int | int64 | float64 | number | float32 | int8..int32 | uint..uint32 | string | pugstring | bool
 	V string `json:"v"` // numbers: decimal text (strconv round trip); strings: hex; bool: true|false
+	// Src: for the template paths literal / var, the JavaScript source of the argument as the author
+	// spelled it (1234567.4999999, 1.2345674999999e6, 0x1F, .5, 5., (7 / 2), parseFloat('2.5'), ...).
+	// The generator computes the value this source denotes in ECMAScript on its own (V, K); the
+	// harness only pastes the text.  Empty: V is the source.
+	Src string `json:"src,omitempty"`
+	// Wrap "parseFloat": K is string | pugstring and the helper under test receives parseFloat(<the string>)
+	// (directly: the registered parseFloat function is called from Go; templates: parseFloat(...) in the source).
+	Wrap string `json:"wrap,omitempty"`
 }
 
 type c18Case struct {
 	Fn   string   `json:"fn"`   // min | max | ceil | trunc | round | parseInt
 	Args []c18Arg `json:"args"` // the argument list
 	Via  string   `json:"via"`  // direct | literal | var | data
+	// Obs, template paths only.  "" / "print": the observation is what `= Math.f(...)` renders (the engine prints
+	// every number with 10 significant digits).  "exact": the result value is handed to the observer function
+	// c18show, registered next to the module's functions through Engine.FuncProvider, which writes the Go value
+	// it receives exactly (an int in decimal, a float as a fraction).
+	Obs string `json:"obs,omitempty"`
+}
+
+// c18Show is the observer: a template function of the harness, not of the module under test.
+type c18Show struct{}
+
+func (c18Show) Func(context.Context) interface{} {
+	return func(x interface{}) string {
+		v := reflect.ValueOf(x)
+		switch v.Kind() {
+		case reflect.Int, reflect.Int8, reflect.Int16, reflect.Int32, reflect.Int64:
+			return "i" + strconv.FormatInt(v.Int(), 10)
+		case reflect.Float32, reflect.Float64:
+			if n, d, ok := c18Rat(v.Float()); ok {
+				return "r" + n + "_" + d
+			}
+			return "notfinite"
+		}
+		return "other"
+	}
 }
 
 type c18Obs struct {
@@ -71,6 +105,54 @@ func c18Value(a c18Arg) (interface{}, error) {
 			return int(n), nil
 		}
 		return n, nil
+	case "int8", "int16", "int32":
+		n, err := strconv.ParseInt(a.V, 10, 32)
+		if err != nil {
+			return nil, err
+		}
+		switch a.K {
+		case "int8":
+			if int64(int8(n)) != n {
+				return nil, fmt.Errorf("%d is no int8", n)
+			}
+			return int8(n), nil
+		case "int16":
+			if int64(int16(n)) != n {
+				return nil, fmt.Errorf("%d is no int16", n)
+			}
+			return int16(n), nil
+		}
+		return int32(n), nil
+	case "uint", "uint8", "uint16", "uint32":
+		n, err := strconv.ParseUint(a.V, 10, 64)
+		if err != nil {
+			return nil, err
+		}
+		switch a.K {
+		case "uint8":
+			if uint64(uint8(n)) != n {
+				return nil, fmt.Errorf("%d is no uint8", n)
+			}
+			return uint8(n), nil
+		case "uint16":
+			if uint64(uint16(n)) != n {
+				return nil, fmt.Errorf("%d is no uint16", n)
+			}
+			return uint16(n), nil
+		case "uint32":
+			if uint64(uint32(n)) != n {
+				return nil, fmt.Errorf("%d is no uint32", n)
+			}
+			return uint32(n), nil
+		}
+		return uint(n), nil
+	case "float32":
+		// V is the shortest text of the float32 value itself (the generator rounds first)
+		x, err := strconv.ParseFloat(a.V, 32)
+		if err != nil {
+			return nil, err
+		}
+		return float32(x), nil
 	case "float64", "number":
 		x, err := strconv.ParseFloat(a.V, 64)
 		if err != nil {
@@ -116,6 +198,15 @@ func c18Direct(c c18Case) (obs c18Obs) {
 	}()
 	ctx := context.Background()
 	funcs := stdFuncs()
+	for i, a := range c.Args {
+		switch a.Wrap {
+		case "":
+		case "parseFloat":
+			vals[i] = c18Extra["parseFloat"].Func(ctx).(func(interface{}) float64)(vals[i])
+		default:
+			return c18Obs{Class: "bad_case", Err: "unknown wrap"}
+		}
+	}
 	// the registered template functions, obtained the way the engine obtains them
 	m := funcs["Math"].Func(ctx).(func() templatefunctions.Math)()
 	one := func() (interface{}, bool) {
@@ -165,12 +256,33 @@ var c18JsName = map[string]string{
 	"round": "Math.round", "parseInt": "parseInt",
 }
 
+// functions of the module that stdFuncs does not register
+var c18Extra = map[string]flamingo.TemplateFunc{"parseFloat": &templatefunctions.ParseFloat{}, "c18show": c18Show{}}
+
+func c18Wrap(a c18Arg, src string) (string, error) {
+	switch a.Wrap {
+	case "":
+		return src, nil
+	case "parseFloat":
+		return "parseFloat(" + src + ")", nil
+	}
+	return "", fmt.Errorf("unknown wrap %q", a.Wrap)
+}
+
 // c18Literal: the argument as JavaScript source text.
 func c18Literal(a c18Arg) (string, error) {
+	if a.Src != "" {
+		for _, r := range a.Src {
+			if r < 0x20 || r > 0x7e || r == '"' || r == '\\' || r == '`' || r == '{' || r == '}' || r == ';' {
+				return "", fmt.Errorf("source %q not usable", a.Src)
+			}
+		}
+		return a.Src, nil
+	}
 	switch a.K {
 	case "int", "int64", "float64", "number":
 		for _, r := range a.V {
-			if !strings.ContainsRune("0123456789.-", r) {
+			if !strings.ContainsRune("0123456789.-e+", r) {
 				return "", fmt.Errorf("number text %q not plain decimal", a.V)
 			}
 		}
@@ -210,12 +322,18 @@ func c18Nodes(c c18Case, slot int, data map[string]interface{}) ([]c18Node, erro
 		switch c.Via {
 		case "literal":
 			s, err := c18Literal(a)
+			if err == nil {
+				s, err = c18Wrap(a, s)
+			}
 			if err != nil {
 				return nil, err
 			}
 			srcs[j] = s
 		case "var":
 			s, err := c18Literal(a)
+			if err == nil {
+				s, err = c18Wrap(a, s)
+			}
 			if err != nil {
 				return nil, err
 			}
@@ -229,12 +347,22 @@ func c18Nodes(c c18Case, slot int, data map[string]interface{}) ([]c18Node, erro
 			}
 			v := fmt.Sprintf("d%dx%d", slot, j)
 			data[v] = val
-			srcs[j] = v
+			if srcs[j], err = c18Wrap(a, v); err != nil {
+				return nil, err
+			}
 		default:
 			return nil, fmt.Errorf("unknown via %q", c.Via)
 		}
 	}
-	nodes = append(nodes, c18Code(name+"("+strings.Join(srcs, ", ")+")", true))
+	call := name + "(" + strings.Join(srcs, ", ") + ")"
+	switch c.Obs {
+	case "", "print":
+	case "exact":
+		call = "c18show(" + call + ")"
+	default:
+		return nil, fmt.Errorf("unknown obs %q", c.Obs)
+	}
+	nodes = append(nodes, c18Code(call, true))
 	return nodes, nil
 }
 
@@ -288,7 +416,7 @@ func c18Templates(cases []c18Case, idxs []int, out []c18Obs, batch int) error {
 	if err := writeTree(dir, files); err != nil {
 		return err
 	}
-	e := newEngine(dir, false, 0, nil)
+	e := newEngine(dir, false, 0, c18Extra)
 	loadCls, loadMsg := safeLoad(e, "")
 	if loadCls != clsOK && batch == 1 && len(tpls) > 1 {
 		// one template spoils the whole load: give every call its own engine
